@@ -200,6 +200,20 @@ def run(ctx: Ctx) -> int:
         if sname in local_fns or (dname in local_fns):
             ok = (sname in local_fns or sname == "str") and (dname in local_fns)
             ctx.oblige("C20.c.ii", ok, None, f"{tname}: custom serializer and deserializer are registered as a pair ({sname} / {dname})" if ok else f"{tname}: custom serializer {sname} is not paired with a custom deserializer (got {dname})", site=site, construct=f"{tname} pair", function="typing:<module>")
+        # (ii') a deserializer that says what it returns (annotation) returns the registered class: otherwise the
+        #       parsed value fails the exact-class test of is_value_of_type and is deserialised again on every pass
+        if dname in local_fns and getattr(local_fns[dname], "returns", None) is not None:
+            rname = (dotted(local_fns[dname].returns) or ast.unparse(local_fns[dname].returns)).strip("'\"").split(".")[-1]
+            ok = rname == tname.split(".")[-1]
+            ctx.oblige(
+                "C20.c.ii",
+                ok,
+                None,
+                f"{tname}: deserializer {dname} is annotated to return {rname}" if ok else f"{tname} is registered with deserializer {dname}, which returns {rname}: the parsed value is not an instance of the registered class, so validate / re-parse deserialise it a second time (the result changes or is rejected)",
+                site=site,
+                construct=f"{tname} deserializer return type",
+                function="typing:<module>",
+            )
         # (iv) declared exceptions cover modelled raises
         raises: Set[str] = set()
         if dname in local_fns:
